@@ -136,12 +136,28 @@ Definition obj_sexp (o : obj) : sexp := match o with Marker m => A m | Module _ 
 Section Run.
   Variable ksqrt : Qc -> Qc.
 
+  (* Outside the modelled fragment: na_action = "pass" keeping a missing value of a str / Categorical
+     column the formula uses (pandas codes it -1: numpy then takes the LAST row of the contrast matrix,
+     or sorting NaN with strings raises TypeError).  The property C09 speaks of missing NUMERIC
+     variables under "pass"; such inputs are reported as Unsupported and skipped by the correspondence. *)
+  Definition pass_keeps_missing_level (e : expr) (f : frame) (n : na_action) : bool :=
+    match n, describe e with
+    | NaPass, Ok m =>
+        existsb (fun kv => existsb (String.eqb (fst kv)) (model_vars m) &&
+                           match snd kv with
+                           | ColStr _ v => existsb (fun x => match x with None => true | _ => false end) v
+                           | ColNum _ _ => false
+                           end) f
+    | _, _ => false
+    end.
+
   Definition build_design (formula : string) (fr na extra : sexp) : res design :=
     do e <- parse_string formula;
     match dec_frame fr, na with
     | Some f, SAtom nas =>
         match dec_na nas with
-        | Some n => design_matrices (DCtx (dec_extra extra) ksqrt) e f n
+        | Some n => if pass_keeps_missing_level e f n then Err EUnsupported
+                    else design_matrices (DCtx (dec_extra extra) ksqrt) e f n
         | None => Err EValue
         end
     | _, _ => Err EAssert
